@@ -620,6 +620,17 @@ def c07(tier, seed):
     return out
 
 
+def c07_short(tier, seed):
+    """State machines in a process started with -test.short: the printed seed still reproduces, the same seed still gives the same run."""
+    rng = random.Random(seed + 7)
+    out = []
+    for sd in seeds(rng, 5 if tier == "quick" else 30):
+        body = [op("repeat", actions={"left": [draw(g("Bool"), "b")], "right": [draw(g("Byte"), "c")]}), draw(g("Int16"), "t", "t"), iff("t", "ge", 3000, [op("fatalf", site=1)])]
+        out.append(scenario("c07-short-sm-%d" % sd, {"body": body}, {"checks": 500, "seed": sd, "nofailfile": "true", "shrinktime": "0s", "steps": 30},
+                            runs=[{}, {"seedPrev": True, "expect": "seed_prev"}, {"expect": "same_run", "expectRun": 1}], tag={"template": "sm", "short": True}))
+    return out
+
+
 # ---------------------------------------------------------------------------
 # C05: same failure, only smaller
 
